@@ -65,22 +65,35 @@ Why == IF Ev.ev = "Enc" /\ Known(Ev.type) THEN [c06 |-> C06(Ev), c07 |-> IF Ev.e
 EmptyArrJ == [t |-> "arr", l |-> << >>, c |-> "[]"]
 RECURSIVE Unwrap(_)
 Unwrap(v) == IF v.t \in {"maybe", "nullable"} /\ v.set THEN Unwrap(v.m) ELSE v
-RECURSIVE PatchNil(_, _, _)
-PatchNil(s, v0, j) ==
+\* known finding: the same for a nil slice held as a value of typed additionalProperties ({"k": null}); PatchNil with
+\* addl = TRUE reads those nulls as [] as well
+AddlEntryEmpty(v, key) ==
+    LET fs == Flatten(v) IN
+    /\ HasField(fs, "additionalproperties")
+    /\ \E i \in DOMAIN FieldOf(fs, "additionalproperties").kv :
+          LET e == FieldOf(fs, "additionalproperties").kv[i] IN e.k = key /\ e.v.t = "list" /\ Len(e.v.l) = 0
+RECURSIVE PatchNilA(_, _, _, _)
+PatchNil(s, v0, j) == PatchNilA(s, v0, j, FALSE)
+PatchNilA(s, v0, j, addl) ==
     LET v == Unwrap(v0) IN
     CASE s.k = "array" /\ j.t = "arr" /\ v.t = "list" /\ Len(v.l) = Len(j.l) ->
            [j EXCEPT !.l = [i \in DOMAIN j.l |->
                IF s.items.k = "array" /\ ~s.items.nullable /\ j.l[i].t = "null" /\ v.l[i].t = "list" /\ Len(v.l[i].l) = 0 THEN EmptyArrJ
-               ELSE PatchNil(s.items, v.l[i], j.l[i])]]
+               ELSE PatchNilA(s.items, v.l[i], j.l[i], addl)]]
       [] s.k = "object" /\ j.t = "obj" /\ v.t = "struct" ->
            [j EXCEPT !.m = [i \in DOMAIN j.m |->
                IF j.m[i].k \in DeclaredNames(s) /\ HasField(Flatten(v), PropByName(s, j.m[i].k).nn)
-               THEN [k |-> j.m[i].k, v |-> PatchNil(PropByName(s, j.m[i].k).s, FieldOf(Flatten(v), PropByName(s, j.m[i].k).nn), j.m[i].v)]
+               THEN [k |-> j.m[i].k, v |-> PatchNilA(PropByName(s, j.m[i].k).s, FieldOf(Flatten(v), PropByName(s, j.m[i].k).nn), j.m[i].v, addl)]
+               ELSE IF addl /\ j.m[i].k \notin DeclaredNames(s) /\ s.addl.k = "schema" /\ s.addl.s.k = "array" /\ ~s.addl.s.nullable
+                       /\ j.m[i].v.t = "null" /\ AddlEntryEmpty(v, j.m[i].k)
+               THEN [k |-> j.m[i].k, v |-> EmptyArrJ]
                ELSE j.m[i]]]
       [] OTHER -> j
 KF == IF Known(Ev.type) /\ S(Ev.type).k = "datetime" THEN "codec-named-datetime"
       ELSE IF Ev.ev = "Enc" /\ Known(Ev.type) /\ Ev.encOK /\ Ev.j.t # "invalid" /\ C06(Ev) /\ ~C07(Ev)
               /\ C07([Ev EXCEPT !.j = PatchNil(S(Ev.type), Ev.v, Ev.j)]) THEN "c07-nested-array-nil-null"
+      ELSE IF Ev.ev = "Enc" /\ Known(Ev.type) /\ Ev.encOK /\ Ev.j.t # "invalid" /\ C06(Ev) /\ ~C07(Ev)
+              /\ C07([Ev EXCEPT !.j = PatchNilA(S(Ev.type), Ev.v, Ev.j, TRUE)]) THEN "c07-addl-array-nil-null"
       ELSE ""
 
 Skip == /\ l <= Len(Trace) /\ ~ENABLED Step
